@@ -44,6 +44,7 @@ type grpSessScript struct {
 	SF   []string         `json:"sf"` // ... SyncGroup
 	CF   []string         `json:"cf"` // ... OffsetCommit
 	H    grpHandlerScript `json:"h"`
+	DF   *int             `json:"df"` // data-plane fault: ListOffsets for this assigned partition fails during this call
 	Trig grpTrig          `json:"trig"`
 }
 
@@ -67,6 +68,10 @@ type grpScenario struct {
 	Strategy  string            `json:"strategy"`
 	Committed []int64           `json:"committed"`
 	GrowAt    string            `json:"growat"` // "" | "claim": partition count grows when c1's handler reaches its point
+	Refresh0  bool              `json:"refresh0"` // Metadata.RefreshFrequency = 0 (background refresh disabled)
+	DClose    bool              `json:"dclose"`   // every group is closed a second time after Close returned
+	NoNet     bool              `json:"nonet"`    // never end a call by the safety-net context cancel
+	DFKind    string            `json:"dfkind"`   // how the start of a claim is failed: notleader (default) | conn
 	Clients   []grpClientScript `json:"clients"`
 }
 
@@ -128,6 +133,10 @@ type grpSim struct {
 	clients  map[string]*grpClientState
 	simErrs  []string
 	expect   map[string]bool // clients started up front: the first join round waits for all of them
+	hbOK     int             // heartbeats answered OK (the watchdog's clock)
+	failOff  map[string]int  // client -> partition whose ListOffsets requests fail (claim start fails)
+	connLn   map[net.Conn]int
+	down     map[int]bool // listeners taken down (unreachable coordinator)
 }
 
 func newGrpSim(rec *vRec, sc *grpScenario) (*grpSim, error) {
@@ -140,6 +149,9 @@ func newGrpSim(rec *vRec, sc *grpScenario) (*grpSim, error) {
 		}
 	}
 	s.expect = map[string]bool{}
+	s.failOff = map[string]int{}
+	s.connLn = map[net.Conn]int{}
+	s.down = map[int]bool{}
 	for _, c := range sc.Clients {
 		s.clients[c.C] = &grpClientState{}
 		if c.Start == "pre" && c.NSess > 0 {
@@ -197,7 +209,13 @@ func (s *grpSim) serve(i int) {
 			conn.Close()
 			return
 		}
+		if s.down[i] {
+			s.mu.Unlock()
+			conn.Close()
+			continue
+		}
 		s.conns[conn] = true
+		s.connLn[conn] = i
 		s.mu.Unlock()
 		s.wg.Add(1)
 		go s.handleConn(conn)
@@ -214,6 +232,7 @@ func (s *grpSim) handleConn(conn net.Conn) {
 		conn.Close()
 		s.mu.Lock()
 		delete(s.conns, conn)
+		delete(s.connLn, conn)
 		s.mu.Unlock()
 	}()
 	for {
@@ -287,6 +306,23 @@ func (s *grpSim) handle(req *request) (encoderWithHeader, bool) {
 		res := &OffsetResponse{Version: r.Version}
 		for topic, bs := range r.blocks {
 			for p, b := range bs {
+				s.mu.Lock()
+				fp, failing := s.failOff[cl]
+				if failing && int(p) == fp {
+					kind := s.sc.DFKind
+					if kind == "" {
+						kind = "notleader"
+					}
+					s.rec.Ev("claim_fail", kv{"c": cl, "p": int(p), "kind": kind})
+					s.mu.Unlock()
+					if kind == "conn" {
+						return nil, true
+					}
+					res.AddTopicPartition(topic, p, -1)
+					res.Blocks[topic][p].Err = ErrNotLeaderForPartition
+					continue
+				}
+				s.mu.Unlock()
 				off := int64(s.sc.LogLen)
 				if b.time == OffsetOldest {
 					off = int64(s.sc.LogStart)
@@ -365,7 +401,7 @@ func (s *grpSim) handleFetch(r *FetchRequest) encoderWithHeader {
 		}
 	}
 	if empty {
-		time.Sleep(time.Duration(r.MaxWaitTime) * time.Millisecond)
+		<-time.After(time.Duration(r.MaxWaitTime) * time.Millisecond) // (not time.Sleep: the watchdog treats sleeping goroutines as progress)
 	}
 	return res
 }
@@ -646,6 +682,9 @@ func (s *grpSim) handleHeartbeat(cl string, r *HeartbeatRequest) (encoderWithHea
 		}
 	}
 	s.rec.Ev("hb", kv{"c": cl, "mid": r.MemberId, "gen": int(r.GenerationId), "err": kind})
+	if kind == "ok" {
+		s.hbOK++
+	}
 	if kind == "conn" {
 		return nil, true
 	}
@@ -754,6 +793,20 @@ func (s *grpSim) clientGone(cl string) {
 			s.removeMember(id, "gone")
 		}
 	}
+}
+
+// coordDown makes broker 1 (seed + coordinator) unreachable: listener and connections closed
+func (s *grpSim) coordDown() {
+	s.mu.Lock()
+	s.rec.Ev("coord_down", kv{})
+	s.down[0] = true
+	for c, i := range s.connLn {
+		if i == 0 {
+			c.Close()
+		}
+	}
+	s.mu.Unlock()
+	s.lns[0].Close()
 }
 
 func (s *grpSim) grow() {
@@ -870,6 +923,9 @@ func (c *grpClient) fireL(at string, sess ConsumerGroupSession, simLocked bool) 
 		c.run.rec.Ev("cancel", kv{"c": c.name})
 		c.cancel()
 	case "close":
+		c.doClose()
+	case "coord_down_close":
+		c.run.sim.coordDown()
 		c.doClose()
 	default: // heartbeat verdict
 		done := c.run.sim.armHb(c.name, ss.Trig.Kind, simLocked)
@@ -1019,6 +1075,9 @@ func grpConfig(sc *grpScenario, name string) *Config {
 	if sc.GrowAt != "" {
 		conf.Metadata.RefreshFrequency = 25 * time.Millisecond
 	}
+	if sc.Refresh0 {
+		conf.Metadata.RefreshFrequency = 0
+	}
 	conf.Net.DialTimeout = 3 * time.Second
 	conf.Net.ReadTimeout = 30 * time.Second
 	conf.Net.WriteTimeout = 3 * time.Second
@@ -1063,6 +1122,11 @@ func (c *grpClient) drive() {
 		cs.sq = append([]string{}, ss.SF...)
 		cs.cq = append([]string{}, ss.CF...)
 		cs.hbArmed = ""
+		delete(r.sim.failOff, c.name)
+		if ss.DF != nil && *ss.DF >= 0 {
+			r.sim.failOff[c.name] = *ss.DF
+		}
+		nonet := r.sc.NoNet || (ss.DF != nil && *ss.DF >= 0)
 		cs.onJoin = func() { c.fireL("join", nil, true) }
 		cs.onSync = func() { c.fireL("sync", nil, true) }
 		r.sim.mu.Unlock()
@@ -1071,8 +1135,14 @@ func (c *grpClient) drive() {
 		r.rec.Ev("consume_call", kv{"c": c.name})
 		// safety net: a call that outlives its script (the real interleaving left the session without the planned
 		// ending cause) is ended by cancelling the context - itself a legitimate trigger, logged as such
+		// Never when the group is being closed or a claim was made to fail: those must end the call by themselves
+		// (the quiescence-aware watchdog reports the hang otherwise).
 		net := time.AfterFunc(2500*time.Millisecond, func() {
 			c.mu.Lock()
+			if c.closing || nonet {
+				c.mu.Unlock()
+				return
+			}
 			c.cancelled = true
 			c.mu.Unlock()
 			r.rec.Ev("cancel", kv{"c": c.name})
@@ -1094,12 +1164,71 @@ func (c *grpClient) drive() {
 	r.sim.clients[c.name].cq = nil
 	r.sim.mu.Unlock()
 	c.doClose()
-	select {
-	case <-c.closeDone:
-	case <-time.After(25 * time.Second):
+	<-c.closeDone // a Close that never returns is the watchdog's business (stage "Close")
+	if r.sc.DClose {
+		r.rec.Ev("close_call", kv{"c": c.name})
+		err := grpGuard(c, "Close", func() error { return c.g.Close() })
+		r.rec.Ev("close_ret", kv{"c": c.name, "err": grpErrStr(err)})
 	}
 	c.setStage("done")
 	r.sim.clientGone(c.name)
+}
+
+// grpAwait waits for done. A hang is reported (false) only when
+//   - the clients keep heartbeating but nothing else has happened for 300 heartbeats per client (the code under test is scheduled and
+//     alive, yet makes no progress: a criterion in units of its own periodic activity, not of wall-clock time), or
+//   - the whole process is blocked (three identical goroutine pictures without a runnable goroutine, as vAwait), or
+//   - a hard cap of 75 s is reached.
+func grpAwait(r *grpRun, done <-chan struct{}, d time.Duration) bool {
+	select {
+	case <-done:
+		return true
+	case <-time.After(d):
+	}
+	snap := func() (int, int) {
+		r.sim.mu.Lock()
+		hb := r.sim.hbOK
+		r.sim.mu.Unlock()
+		r.rec.mu.Lock()
+		ev := r.rec.events
+		r.rec.mu.Unlock()
+		return ev - hb, hb
+	}
+	hard := time.Now().Add(75 * time.Second)
+	prog, hb0 := snap()
+	same, last := 0, ""
+	for time.Now().Before(hard) {
+		select {
+		case <-done:
+			return true
+		case <-time.After(300 * time.Millisecond):
+		}
+		p, hb := snap()
+		if p != prog {
+			prog, hb0 = p, hb
+			same = 0
+			continue
+		}
+		if hb-hb0 >= 300*len(r.clients) {
+			return false
+		}
+		fp, active := vGoroutineStates()
+		if !active && fp == last && hb == hb0 {
+			same++
+			if same >= 3 {
+				return false
+			}
+		} else {
+			same = 0
+		}
+		last = fp
+	}
+	select {
+	case <-done:
+		return true
+	default:
+		return false
+	}
 }
 
 type grpOutcome struct {
@@ -1150,17 +1279,14 @@ func grpRunScenario(t *testing.T, rec *vRec, sc *grpScenario) (out grpOutcome, e
 		committed = append(committed, v)
 	}
 	rec.Reset(kv{"id": sc.ID, "fam": sc.Fam, "members": len(sc.Clients), "np": sc.NP, "loglen": sc.LogLen, "logstart": sc.LogStart,
-		"initial": sc.Initial, "auto": sc.Auto, "hbretry": grpHbRetry, "strategy": sc.Strategy, "committed": committed})
+		"initial": sc.Initial, "auto": sc.Auto, "hbretry": grpHbRetry, "strategy": sc.Strategy, "committed": committed,
+		"refresh0": sc.Refresh0})
 	for _, c := range run.clients {
 		go c.drive()
 	}
-	deadline := make(chan struct{})
-	dlt := time.AfterFunc(20*time.Second, func() { close(deadline) })
-	defer dlt.Stop()
+	// quiescence-aware watchdog: a hang is only reported when the whole process is blocked (sound under load)
 	for _, c := range run.clients {
-		select {
-		case <-c.done:
-		case <-deadline:
+		if !grpAwait(run, c.done, 4*time.Second) {
 			out.Hang = true
 		}
 	}
